@@ -28,8 +28,9 @@ class Unsupported(Exception):
 # kinds: 'int' 'bool' 'str' 'list' 'dict' 'mv' 'coef' 'fun' 'alg' 'tuple' 'opt:<kind>' 'signs' None(unknown)
 class T:
     """a translation target"""
-    def __init__(self, file, qual, lean, params, ret, locals=None, tparams='', uses_alg=False, coef=False, self_name=None, uses_ops=False, uses_mops=False, consts=None, state=None, externals=None, drop_assign=(), env=None, state_type=None, region=None, self_locals=(), strkey=(), extra_params=(), skip_if=(), prelude_lets=()):
+    def __init__(self, file, qual, lean, params, ret, locals=None, tparams='', uses_alg=False, coef=False, self_name=None, uses_ops=False, uses_mops=False, consts=None, state=None, externals=None, drop_assign=(), env=None, state_type=None, region=None, self_locals=(), strkey=(), extra_params=(), skip_if=(), prelude_lets=(), fuel=()):
         self.file, self.qual, self.lean = file, qual, lean
+        self.fuel = list(fuel)        # fuel expressions (Lean) of the `while` loops, in order of appearance
         self.params = params          # list of (pyname, leantype, kind)
         self.ret = ret
         self.locals = locals or {}    # pyname -> (leantype, kind)
@@ -103,6 +104,17 @@ TARGETS = [
     T('kingdon/codegen.py', 'codegen_sw', 'codegen_sw', [('x', MV, 'mv'), ('y', MV, 'mv')], MV, tparams=COEF, uses_alg=True, uses_ops=True),
     T('kingdon/codegen.py', 'codegen_proj', 'codegen_proj', [('x', MV, 'mv'), ('y', MV, 'mv')], MV, tparams=COEF, uses_alg=True, uses_ops=True),
     T('kingdon/codegen.py', 'codegen_normsq', 'codegen_normsq', [('x', MV, 'mv')], MV, tparams=COEF, uses_alg=True, uses_ops=True),
+    # the outer series: `asterms` fixed to True (the list of scaled wedge powers) and to False (their sum)
+    T('kingdon/codegen.py', 'codegen_outerexp', 'outerexp_terms', [('x', MV, 'mv')], 'List (' + MV + ')', tparams=COEF, uses_alg=True, uses_ops=True,
+      locals={'Ws': ('List (' + MV + ')', 'list:mv'), 'Wj': (MV, 'mv'), 'j': ('Int', 'int'), 'k': ('Int', 'int')}, consts={'asterms': True},
+      skip_if=['len(x.grades) != 1'], fuel=['alg.d.toNat']),
+    T('kingdon/codegen.py', 'codegen_outerexp', 'codegen_outerexp', [('x', MV, 'mv')], MV, tparams=COEF, uses_alg=True, uses_ops=True,
+      locals={'Ws': ('List (' + MV + ')', 'list:mv'), 'Wj': (MV, 'mv'), 'j': ('Int', 'int'), 'k': ('Int', 'int')}, consts={'asterms': False},
+      skip_if=['len(x.grades) != 1'], fuel=['alg.d.toNat']),
+    T('kingdon/codegen.py', 'codegen_outersin', 'codegen_outersin', [('x', MV, 'mv')], MV, tparams=COEF, uses_alg=True, uses_ops=True,
+      locals={'odd_Ws': ('List (' + MV + ')', 'list:mv'), 'outersin': (MV, 'mv')}),
+    T('kingdon/codegen.py', 'codegen_outercos', 'codegen_outercos', [('x', MV, 'mv')], MV, tparams=COEF, uses_alg=True, uses_ops=True,
+      locals={'even_Ws': ('List (' + MV + ')', 'list:mv'), 'outercos': (MV, 'mv')}),
     T('kingdon/codegen.py', 'codegen_polarity', 'codegen_polarity', [('x', MV, 'mv'), ('undual', 'Bool', 'bool')], MV,
       tparams=COEF, uses_alg=True, uses_ops=True),
     T('kingdon/codegen.py', 'codegen_unpolarity', 'codegen_unpolarity', [('x', MV, 'mv')], MV, tparams=COEF, uses_alg=True, uses_ops=True),
@@ -232,6 +244,7 @@ structure Ops (α : Type) where
   conjugate : Py.Dict Int α → Py.Dict Int α
   grade : Py.Dict Int α → List Int → Py.Dict Int α
   rmulInt : Int → Py.Dict Int α → Py.Dict Int α
+  divInt : Py.Dict Int α → Int → Py.Dict Int α
   e : Py.Dict Int α → α
   one : Py.Dict Int α
   pss : Py.Dict Int α
@@ -334,6 +347,8 @@ class Tr:
                         bump(nm)
                     if isinstance(tg, ast.Subscript) and isinstance(tg.value, ast.Name):
                         bump(tg.value.id, 2)
+                    if isinstance(tg, ast.Attribute) and isinstance(tg.value, ast.Name):
+                        bump(tg.value.id, 2)          # `W._values = ..` changes W
             elif isinstance(node, ast.AugAssign):
                 if isinstance(node.target, ast.Name):
                     bump(node.target.id, 2)
@@ -423,7 +438,8 @@ class Tr:
             if any(isinstance(e, ast.Starred) for e in node.elts):
                 parts = [self.E(e.value)[0] if isinstance(e, ast.Starred) else '[' + self.E(e)[0] + ']' for e in node.elts]
                 return '(' + ' ++ '.join(parts) + ')', 'list'
-            return '[' + ', '.join(self.E(e)[0] for e in node.elts) + ']', 'list'
+            els = [self.E(e) for e in node.elts]
+            return '[' + ', '.join(c for c, _ in els) + ']', ('list:mv' if els and all(k == 'mv' for _, k in els) else 'list')
         if isinstance(node, ast.NamedExpr):
             c, k = self.E(node.value)
             nm = node.target.id
@@ -600,6 +616,9 @@ class Tr:
                 if s.upper is None and s.step is None and s.lower is not None:
                     lo, _ = self.E(s.lower)
                     return f'(Py.sliceFrom {v} {lo})', kv
+                if s.upper is None and isinstance(s.step, ast.Constant) and isinstance(s.step.value, int) and s.step.value > 0 \
+                        and isinstance(s.lower, ast.Constant) and isinstance(s.lower.value, int) and s.lower.value >= 0:
+                    return f'(Py.sliceStep {v} {s.lower.value} {s.step.value})', kv
                 raise Unsupported('slice form')
             if (kv or '').startswith('tuple:') and isinstance(node.slice, ast.Constant) and node.slice.value in (0, 1):
                 return f'{v}.{node.slice.value + 1}', (kv[6:].split(',')[node.slice.value] or None)
@@ -794,6 +813,8 @@ class Tr:
         f = node.func
         args = node.args
         kw = {k.arg: k.value for k in node.keywords}
+        if self.t.uses_ops and ast.unparse(node) in ('alg.scalar([1])', 'alg.scalar((1,))'):
+            return 'ops.one', 'mv'          # the scalar 1 of the algebra
         if self.t.externals:
             ft = ast.unparse(f)
             if ft in self.t.externals and self.t.externals[ft][1] == 'fun' and not kw:
@@ -869,6 +890,11 @@ class Tr:
                 return f'(({self.E(args[1])[0]}).foldl Py.xor {self.E(args[2])[0]})', 'int'
             if n == 'reduce' and len(args) == 2 and ast.unparse(args[0]) == 'operator.or_':
                 return f'(← Py.reduce Py.lor {self.E(args[1])[0]})', 'int'
+            if n == 'reduce' and len(args) == 2 and not kw and ast.unparse(args[0]) == 'operator.add' and self.t.uses_ops:
+                xs, kxs = self.E(args[1])
+                if kxs != 'list:mv':
+                    raise Unsupported('reduce(operator.add, ..) over kind ' + str(kxs))
+                return f'(← Py.reduce ops.add {xs})', 'mv'
             if n == 'reduce' and len(args) in (2, 3) and not kw:
                 fcode = self.lam2(args[0]) if isinstance(args[0], ast.Lambda) else self.E(args[0])[0]
                 xs = self.E(args[1])[0]
@@ -884,6 +910,24 @@ class Tr:
             if n == 'combinations' and len(args) == 1 and set(kw) == {'r'}:
                 return f'(Py.combinations {self.E(args[0])[0]} {self.E(kw["r"])[0]})', 'list'
             if n in BY_PY:
+                cands = [t_ for t_ in TARGETS if t_.qual.split('.')[-1] == n]
+                if len(cands) > 1:
+                    # several instantiations of one python function (a parameter fixed to different constants): the one
+                    # whose constants are what this call passes (or leaves at its default)
+                    def matches(t_):
+                        fn_ = FUNCS[t_.qual]
+                        names_ = [a.arg for a in fn_.args.args]
+                        dflt_ = dict(zip(names_[len(names_) - len(fn_.args.defaults):], fn_.args.defaults))
+                        given_ = dict(zip(names_, args)); given_.update(kw)
+                        for cn, cv in t_.consts.items():
+                            node_ = given_.get(cn, dflt_.get(cn))
+                            if not (isinstance(node_, ast.Constant) and node_.value == cv):
+                                return False
+                        return True
+                    cands = [t_ for t_ in cands if matches(t_)]
+                    if len(cands) != 1:
+                        raise Unsupported(f'no unique instantiation of {n} for this call')
+                    return self.call_target(cands[0], args, kw)
                 return self.call_target(BY_PY[n], args, kw)
             if self.kinds.get(n) == 'fun':
                 return '(' + n + ' ' + ' '.join(self.E(a)[0] for a in args) + ')', 'int'
@@ -1053,6 +1097,21 @@ class Tr:
                 if isinstance(c.func, ast.Name) and c.func.id == 'print':
                     return []                                  # diagnostics: no effect on the result
             raise Unsupported('expression statement')
+        if isinstance(st, ast.Assign) and len(st.targets) == 1 and isinstance(st.targets[0], ast.Attribute) and st.targets[0].attr == '_values' \
+                and isinstance(st.targets[0].value, ast.Name) and self.kinds.get(st.targets[0].value.id) == 'mv' and self.t.uses_ops:
+            # `W._values = tuple(v / j for v in W._values)`: every coefficient divided by the integer j
+            nm = st.targets[0].value.id
+            v = st.value
+            ok = isinstance(v, ast.Call) and isinstance(v.func, ast.Name) and v.func.id == 'tuple' and len(v.args) == 1 and isinstance(v.args[0], ast.GeneratorExp) \
+                and len(v.args[0].generators) == 1 and not v.args[0].generators[0].ifs and ast.unparse(v.args[0].generators[0].iter) == f'{nm}._values' \
+                and isinstance(v.args[0].elt, ast.BinOp) and isinstance(v.args[0].elt.op, ast.Div) \
+                and ast.unparse(v.args[0].elt.left) == ast.unparse(v.args[0].generators[0].target)
+            if not ok:
+                raise Unsupported('assignment to _values of this form')
+            dv, dk = self.E(v.args[0].elt.right)
+            if dk != 'int':
+                raise Unsupported('division of coefficients by kind ' + str(dk))
+            return self.flush(ind) + [f'{ind}{self.rename.get(nm, nm)} := ops.divInt {self.rename.get(nm, nm)} {dv}']
         if isinstance(st, ast.Assign):
             if len(st.targets) != 1:
                 raise Unsupported('multiple assignment targets')
@@ -1138,9 +1197,35 @@ class Tr:
             key = 'return:' + ast.unparse(st.value)
             c = self.t.externals[key][0] if key in self.t.externals else self.E(st.value)[0]
             return self.flush(ind) + [f'{ind}return {c}']
+        if isinstance(st, ast.While):
+            if st.orelse:
+                raise Unsupported('while-else')
+            self.nwhile = getattr(self, 'nwhile', 0)
+            if self.nwhile >= len(self.t.fuel):
+                raise Unsupported('while loop without a fuel expression')
+            fuel = self.t.fuel[self.nwhile]
+            self.nwhile += 1
+            t = self.truth(st.test)
+            if self.pre or '←' in t:
+                raise Unsupported('loop condition that binds or can raise')
+            # python's `while c: body` as a bounded loop; running out of fuel with c still true is an error ("FUEL"): a
+            # translation that returns went through at most `fuel` iterations
+            has_break = any(isinstance(n_, ast.Break) for n_ in ast.walk(st))
+            flag = f'broke__{self.nwhile}'
+            self.loops = getattr(self, 'loops', []) + [flag if has_break else 'while']
+            body = self.block(st.body, ind + '  ')
+            self.loops = self.loops[:-1]
+            if has_break:
+                # a python `break` leaves the loop with the condition possibly still true: remembered in a flag
+                return [f'{ind}let mut {flag} := false', f'{ind}for _ in List.range ({fuel}) do', f'{ind}  if !{t} then break'] + body + \
+                       [f'{ind}if !{flag} && {t} then throw "FUEL"']
+            return [f'{ind}for _ in List.range ({fuel}) do', f'{ind}  if !{t} then break'] + body + [f'{ind}if {t} then throw "FUEL"']
         if isinstance(st, ast.Continue):
             return [ind + 'continue']
         if isinstance(st, ast.Break):
+            top = (getattr(self, 'loops', None) or ['for'])[-1]
+            if top.startswith('broke__'):
+                return [f'{ind}{top} := true', ind + 'break']
             return [ind + 'break']
         if isinstance(st, ast.Raise):
             exc = st.exc
@@ -1386,7 +1471,10 @@ def write_if_changed():
         try:
             from harness import leancheck
         except ImportError:
-            import leancheck
+            try:
+                import leancheck
+            except ImportError:
+                return report
         stub = {}
         for _ in range(4):
             ok, bad = leancheck.failing_defs(os.path.relpath(OUT, leancheck.LEAN), ['Kingdon.Model.Py'])
